@@ -25,7 +25,7 @@ ANCHORS = ["src/tickit/core/components/system_component.py", "src/tickit/core/ma
            "src/tickit/core/management/ticker.py", "src/tickit/core/management/schedulers/base.py", "src/tickit/adapters/io/tcp_io.py",
            "src/tickit/adapters/io/zeromq_push_io.py"]
 TECHNIQUE = 'Lean 4 theorems (invariants by induction over EVERY history of statement-level transition systems with ghost resource counters: the master run loop - proved to erase to the flag protocol that the trace acceptor ties to _do_tick -, the system component tick/error race, the TCP reply tasks, the ticker\'s to_update table; growth witnesses for the pre-repair code) + trace acceptance of the master loop in every long run + measurement of the real event loop (live tasks, retained finished tasks via gc, timers, entries of every reachable container) after N, 2N, 4N ticks / messages'
-LEVEL_TEXT = ('Proved (Props/C14Loop, C14Race, C14Ticker; invariants by induction over every history, no bound on its length): (1) the master run loop annotated with ghost counters for the tasks and the timer of the sleep / new-wakeup race: erasing the counters gives exactly the flag protocol MLoopSt.step (res_step_erases, res_run_erases, res_run_lifts - the protocol that the driver\'s trace acceptor ties to the real _do_tick on every run), and after ANY history of add_wakeup / interrupt / expiry / loop moves the loop holds <= 2 live tasks and <= 1 timer, none at all outside the race (loop_tasks_bounded, loop_tasks_exact); len(wakeups) <= number of DISTINCT components that ever asked and len(_pending_interrupts) <= len(wakeups) (loop_entries_bounded); without the cancellation of the loser (code before 8a9136c) n pre-emptions of a far sleep leave n tasks and n timers, for every n (old_loop_resources_grow). (2) the system component\'s tick/error race: <= 2 tasks per system component and 0 outside on_tick for every history, <= 2k for k system components under any interleaving, and linear growth before f518297 (system_race_bounded, system_farm_bounded, old_system_race_grows). (3) TCP reply tasks: for every history of connections, chunks, completions and closes the stored handles are exactly the replies still in flight on open connections - independent of the number of chunks processed - and n chunks left n+1 retained handles before 9447ad9 (tcp_bounded, tcp_quiescent, old_tcp_grows). (4) in every reachable state of every tick len(to_update) <= |extent| <= |components| (ticker_toUpdate_bounded). (5) one wakeup entry per component (addWakeup_length ...) and the older operation-level ledger. PARTIAL: task and timer lifetimes inside asyncio (lazy purging of cancelled timer handles, garbage collection of finished tasks, what other adapters create) are runtime behaviour; the TCP model IS tied by a trace acceptor (driver op tcpres: the connect / chunk / reply-finished / end-of-stream / handler-returned events of several concurrent connections through the real handle function, observed by a task factory, must be enabled in TcpSt in the order observed, and at every quiescent moment the io's live tasks and still-referenced finished reply tasks must equal the model's); the system-race model is tied by measurement only. Measurement on the real code: 7 long runs (flat periodic, nested periodic, depth-2, far callback pre-empted by interrupts; with and without interrupts) are measured after N, 2N, 4N master ticks (N = 40 quick / 500 thorough): live tasks, finished-but-retained Task objects (gc), pending timers, wakeups, pending interrupts, entries of every container reachable from scheduler and components; the master loop events of each run must be accepted by the flag protocol model; plus 1200 / 16000 messages on one TCP connection through the real handle function with fake streams (some replies fail in the reply task) and 1200 / 16000 message sequences through the real ZeroMqPushIo with a fake socket whose peer goes away (sends fail); a resource that is higher at 4N than at N by more than 2 with non-decreasing differences is reported.')
+LEVEL_TEXT = ('Proved (Props/C14Loop, C14Race, C14Ticker; invariants by induction over every history, no bound on its length): (1) the master run loop annotated with ghost counters for the tasks and the timer of the sleep / new-wakeup race: erasing the counters gives exactly the flag protocol MLoopSt.step (res_step_erases, res_run_erases, res_run_lifts - the protocol that the driver\'s trace acceptor ties to the real _do_tick on every run), and after ANY history of add_wakeup / interrupt / expiry / loop moves the loop holds <= 2 live tasks and <= 1 timer, none at all outside the race (loop_tasks_bounded, loop_tasks_exact); len(wakeups) <= number of DISTINCT components that ever asked and len(_pending_interrupts) <= len(wakeups) (loop_entries_bounded); without the cancellation of the loser (code before 8a9136c) n pre-emptions of a far sleep leave n tasks and n timers, for every n (old_loop_resources_grow). (2) the system component\'s tick/error race: <= 2 tasks per system component and 0 outside on_tick for every history, <= 2k for k system components under any interleaving, and linear growth before f518297 (system_race_bounded, system_farm_bounded, old_system_race_grows). (3) TCP reply tasks: for every history of connections, chunks, completions and closes the stored handles are exactly the replies still in flight on open connections - independent of the number of chunks processed - and n chunks left n+1 retained handles before 9447ad9 (tcp_bounded, tcp_quiescent, old_tcp_grows). (4) in every reachable state of every tick len(to_update) <= |extent| <= |components| (ticker_toUpdate_bounded). (5) one wakeup entry per component (addWakeup_length ...) and the older operation-level ledger. PARTIAL: task and timer lifetimes inside asyncio (lazy purging of cancelled timer handles, garbage collection of finished tasks, what other adapters create) are runtime behaviour; the TCP model IS tied by a trace acceptor (driver op tcpres: the connect / chunk / reply-finished / end-of-stream / handler-returned events of several concurrent connections through the real handle function, observed by a task factory, must be enabled in TcpSt in the order observed, and at every quiescent moment the live tasks of the io and the finished reply tasks that are still referenced must equal those of the model); the system-race model is tied by measurement only. Measurement on the real code: 7 long runs (flat periodic, nested periodic, depth-2, far callback pre-empted by interrupts; with and without interrupts) are measured after N, 2N, 4N master ticks (N = 40 quick / 500 thorough): live tasks, finished-but-retained Task objects (gc), pending timers, wakeups, pending interrupts, entries of every container reachable from scheduler and components; the master loop events of each run must be accepted by the flag protocol model; plus 1200 / 16000 messages on one TCP connection through the real handle function with fake streams (some replies fail in the reply task) and 1200 / 16000 message sequences through the real ZeroMqPushIo with a fake socket whose peer goes away (sends fail); a resource that is higher at 4N than at N by more than 2 with non-decreasing differences is reported.')
 LEVEL_NOTE = 'Trusts: Lean kernel for the bookkeeping bound; CPython gc and asyncio.all_tasks for the measurement; harness tasks are excluded by name.'
 ASSUMPTIONS = ['one open TCP connection; fake streams that never block']
 
